@@ -608,11 +608,11 @@ class Replayer:
                 for mm in m[which]:
                     mm2 = dict(mm, i=cur)
                     try:
-                        t = R.apply_move(mm2, heap, colmap)
+                        t = R.apply_move(mm2, heap, colmap, side.pool)
                     except Exception as e:  # noqa: BLE001
                         if exc_class(e) == "SubqueryError" and bk != "polars":
                             heap[cur - 1] = heap[cur - 1] >> R.alias(keep_col_refs=True)
-                            t = R.apply_move(mm2, heap, colmap)
+                            t = R.apply_move(mm2, heap, colmap, side.pool)
                         else:
                             raise
                     heap[cur - 1] = t
